@@ -674,6 +674,7 @@ func (g *GcsEmu) finishUpload(ctx context.Context, baseUrl HttpBaseUrl, obj *sto
 	}
 	obj.Md5Hash = md5Hash
 
+	var meta *storage.Object
 	err := g.locks.Run(ctx, lockName(bucket, filename), func(ctx context.Context) error {
 		// Find the existing file / meta.
 		existing, err := g.store.GetMeta(baseUrl, bucket, filename)
@@ -692,17 +693,22 @@ func (g *GcsEmu) finishUpload(ctx context.Context, baseUrl HttpBaseUrl, obj *sto
 		if err := g.store.Add(bucket, filename, contents, obj); err != nil {
 			return fmt.Errorf("failed to create %s/%s: %w", bucket, filename, err)
 		}
+
+		// Read back the object metadata for the response while still holding the
+		// object lock, so that it describes this very write.
+		added, err := g.store.GetMeta(baseUrl, bucket, filename)
+		if err != nil {
+			return fmt.Errorf("failed to get meta for %s/%s: %w", bucket, filename, err)
+		}
+		if added == nil {
+			return fmt.Errorf("failed to get meta for %s/%s: object vanished", bucket, filename)
+		}
+		meta = added
 		return nil
 	})
 
 	if err != nil {
 		return nil, err
-	}
-
-	// respond with object metadata
-	meta, err := g.store.GetMeta(baseUrl, bucket, filename)
-	if err != nil {
-		return nil, fmt.Errorf("failed to get meta for %s/%s: %w", bucket, filename, err)
 	}
 	return meta, nil
 }
